@@ -88,7 +88,7 @@ def body(case):
             import copy, warnings
             with warnings.catch_warnings():
                 warnings.simplefilter("ignore")
-                robj = ns.r.Rule.from_spec(copy.deepcopy(spec))
+                robj = ns.r.Rule.from_spec((SP.recycled(spec, ns.r.Rule.from_spec) if len(repr(spec)) % 2 else None) or copy.deepcopy(spec))
             out.label("rule-from-spec")
         else:
             robj = build.build_rule(rule)
